@@ -120,7 +120,9 @@ where
         let t = if s == F::infinity() {
             F::one()
         } else if s != F::one() {
-            (n.powf(F::one() - s) - s) * q
+            // `(n^(1-s) - s) / (1-s)`, written as `(n^(1-s) - 1) / (1-s) + 1` with
+            // `exp_m1` so that nothing cancels when `s` is close to 1.
+            ((F::one() - s) * n.ln()).exp_m1() * q + F::one()
         } else {
             F::one() + n.ln()
         };
@@ -136,7 +138,9 @@ where
         if pt <= one {
             pt
         } else if self.s != one {
-            (pt * (one - self.s) + self.s).powf(self.q)
+            // `(pt * (1-s) + s)^(1/(1-s))` as `exp(ln(1 + (1-s)(pt-1)) / (1-s))`:
+            // the same value without cancellation for `s` close to 1.
+            (((one - self.s) * (pt - one)).ln_1p() * self.q).exp()
         } else {
             (pt - one).exp()
         }
